@@ -82,7 +82,7 @@ def run(F, R):
         # W8: "the first suitable capability of each type" is relative to where the capability list starts: the capabilities
         # pointer with its two reserved low bits cleared (C12.B4 list-start)
         from .C12 import b4b_list_start
-        b4b_list_start(F, RuleProxy(R, {'B4': 'W8'}))
+        guard(R, 'W8', 'list-start', lambda: b4b_list_start(F, RuleProxy(R, {'B4': 'W8'})))
 
 
 # ------------------------------------------------------------------------------------------------ W3
